@@ -49,10 +49,61 @@ def gen_lines(rng, n):
     return out
 
 
+def floatify(rng, v, p=0.5):
+    """the same mathematical value with some integers spelled as doubles (1 -> 1.0): JSON Schema compares numbers by value"""
+    import struct
+    if isinstance(v, bool) or v is None:
+        return v
+    if isinstance(v, int):
+        if abs(v) < 2 ** 53 and rng.random() < p:
+            return ("d", struct.unpack("<Q", struct.pack("<d", float(v)))[0])
+        return v
+    if isinstance(v, list):
+        return [floatify(rng, x, p) for x in v]
+    if isinstance(v, Obj):
+        return Obj([(k, floatify(rng, x, p)) for k, x in v.members])
+    return v
+
+
+def gen_number_equality(rng, n):
+    """uniqueItems / enum / const over numbers that are equal as numbers but spelled differently (1 and 1.0, -2 and -2.0, 100 and 1e2): the
+    instance sent to the real validator carries doubles, the reference validator sees the integers they equal"""
+    impl, model = [], []
+    pool = [0, 1, -1, 2, -2, 7, 100, 2 ** 31, 2 ** 53 - 1]
+    for _ in range(n):
+        draft = rng.choice(sg.DRAFTS[1:])
+        r = rng.random()
+        vals = [rng.choice(pool) for _ in range(rng.randint(1, 4))]
+        if rng.random() < 0.6:
+            vals.append(rng.choice(vals))
+        rng.shuffle(vals)
+        nest = rng.random()
+        if nest < 0.3:
+            vals = [[x] for x in vals]
+        elif nest < 0.5:
+            vals = [Obj([(b"a", x)]) for x in vals]
+        uniq = {"kws": [("uniq", True)], "up": None, "ui": None}
+        if r < 0.5:
+            s, inst = uniq, vals
+        elif r < 0.65:
+            s, inst = {"kws": [("items", [], uniq)], "up": None, "ui": None}, [vals, vals[:1]]
+        elif r < 0.85:
+            s, inst = {"kws": [("enum", [vals[0], [vals[-1]], None])], "up": None, "ui": None}, rng.choice([vals[0], [vals[-1]], vals[-1], [vals[0]]])
+        else:
+            s, inst = {"kws": [("const", vals)], "up": None, "ui": None}, (vals if rng.random() < 0.7 else vals[::-1])
+        doc = sg.render(s, draft, [], rng)
+        ast = sg.tokens(s, [])
+        model.append("js %s | %s | %s | %s" % (draft, wire.render(doc), wire.render(inst), ast))
+        impl.append("js %s | %s | %s | %s" % (draft, wire.render(floatify(rng, doc, 0.3)), wire.render(floatify(rng, inst)), ast))
+    return impl, model
+
+
 def streams(ctx, rng, scale):
     lw = vlib.witness_lines(PROP)
     ctx.correspond("finding-witnesses", HARNESS, lw, oracle, nontrivial, compare=lambda l, i, m: True)
     ctx.correspond("schemas", HARNESS, gen_lines(rng, 1200 * scale), oracle, nontrivial, compare=lambda l, i, m: True)
+    li, lm = gen_number_equality(rng, 300 * scale)
+    ctx.correspond("number-equality", HARNESS, li, oracle, nontrivial, compare=lambda l, i, m: True, model_lines=lm)
 
 
 def run(ctx):
